@@ -1738,7 +1738,7 @@ func TestCheck(t *testing.T) {
 	r := mon.Start(t, "C11")
 	defer r.Finish()
 	L := r.Pick(6, 7)
-	r.Note("rule", "Real filter in lockstep with reference models written from the property. (1) exh/: every history of exactly L ops (so every shorter one as a prefix) over values {a,b,c} x time steps {-2ttl,-1ns,0,+1ns,ttl-1ns,ttl,ttl+1ns} relative to the previous now, one representative per renaming of the values (values are random strings under a random SipHash key, labels carry no meaning) and the first op at step 0 (a fresh filter has no previous clock); each history on a fresh replayfilter.New(ttl); ttl in {10s, 3h, 0}. (2) prng/: histories of 10000 ops over a pool of 3..42 values plus fresh ones, steps: small forward, zero, +-1ns around the expiry instant of a random live entry, ttl-1/ttl/ttl+1, +2ttl, and with a per-history probability of 0, 0.5, 3 or 15 percent a backwards step (small, -2ttl, or onto/just below the timestamp of a live entry); ttl in {10s,3h,3ns,1us,0}. (3) cap/: scripted monotone histories that overflow 102400 by k, probe the oldest k, long-evicted, middle, newest and frontier values, with expiry interleaved, a step below the oldest entry on a full filter, and a random walk around the capacity. (4) conc/: 2..16 goroutines x 2..6 ops on 1..3 values in barrier-separated phases with one now per phase (increasing; the last phase >= ttl after all others), logical call/return ticks from one atomic counter, porcupine against a per-value test-and-set model with expiry, plus the direct count 'exactly one new per phase and not-remembered value'. "+
+	r.Note("rule", "Real filter in lockstep with reference models written from the property. (1) exh/: every history of exactly L ops (so every shorter one as a prefix) over values {a,b,c} x time steps {-2ttl,-1ns,0,+1ns,ttl-1ns,ttl,ttl+1ns} relative to the previous now, one representative per renaming of the values (values are random strings under a random SipHash key, labels carry no meaning) and the first op at step 0 (a fresh filter has no previous clock); each history on a fresh replayfilter.New(ttl); ttl in {10s, 3h, 0}. (2) prng/: histories of 10000 ops over a pool of 3..42 values plus fresh ones, steps: small forward, zero, +-1ns around the expiry instant of a random live entry, ttl-1/ttl/ttl+1, +2ttl, and with a per-history probability of 0, 0.5, 3 or 15 percent a backwards step (small, -2ttl, or onto/just below the timestamp of a live entry); ttl in {10s,3h,3ns,1us,0}. (3) cap/: scripted monotone histories that overflow 102400 by k, probe the oldest k, long-evicted, middle, newest and frontier values, with expiry interleaved, a step below the oldest entry on a full filter, and a random walk around the capacity. (4) conc/: 2..16 goroutines x 2..6 ops on 1..3 values in barrier-separated phases with one now per phase (increasing; the last phase >= ttl after all others), logical call/return ticks from one atomic counter, porcupine against a per-value test-and-set model with expiry, plus the direct count 'exactly one new per phase and not-remembered value'. (5) now/: TestAndSetNow (the filter reads the clock itself, under its lock) against TestAndSet(time.Now(), .) on a twin filter over PRNG histories in virtual time incl. the instants ttl-1ns/ttl/ttl+1ns after an insertion, and on the real clock 2..16 goroutines x 2..31 fresh values at once (exactly one 'new' per value, everything 'seen' afterwards). "+
 		"Judged: clean mode (clock monotone for everything that can be held, model never evicted) answers exactly, where 'inserted' is the TestAndSet that was answered new (a 'seen' answer does not renew an entry). From a backwards step that stays at or above the oldest entry the history is tainted until now < every t that can be held (everything discarded) or now >= newest such t + ttl (everything expired): while tainted every value that can still be held, including values stored meanwhile, admits either answer (the property promises 'exactly' only for a monotone clock; keeping everything and discarding everything are both valid, and a filter that compacts from the front only may keep entries behind a younger front beyond their ttl); still judged while tainted: never-inserted and certainly-forgotten values are new, a replay at the very same now is seen. ttl=0: the property speaks of values 'inserted less than the time-to-live ago', which is nobody for 0 (the code indeed forgets everything on every call), while 'never expire' would be another reading, so only the structure invariants and 'never seen for a never submitted value' are judged and the observed answers are only counted (ttl0_answers_*). At capacity two readings (room is made before every lookup / only before storing a new value) run side by side and an answer is judged only where they agree; which one the code follows is only counted. On every history: size <= 102400, map<->fifo bijection, no 'seen' for never submitted values, everything forgotten after a step below the oldest entry. Exact size equality with the model is counted, not judged. "+
 		"A history is non-trivial when some op is not a first insert; distinct = distinct sequence of (global event, oracle class) per op in exh/, distinct history in prng/ and cap/, distinct interleaving (order of call/return events with answers) in conc/. A violation is re-run with fresh random strings on a fresh filter before it is reported (SipHash collisions).")
 	r.Note("exhaustive_part", fmt.Sprintf("exh/: all histories of length <= %d (enumerated as all of length exactly %d; shorter ones are their prefixes) over 3 values x 7 time steps, up to renaming of values and with the first op at step 0: %d value patterns x 7^%d step sequences = %d histories per ttl, for ttl 10s and 3h; ttl=0 (reduced judgement) up to length %d. Without the two symmetries this is the 21^%d space of the design.", L, L, rgsCount(L), L-1, int64(rgsCount(L))*pow(7, L-1), min(L, 6), L))
@@ -1754,6 +1754,7 @@ func TestCheck(t *testing.T) {
 	prngHistories(r)
 	capacity(r)
 	concurrency(r)
+	nowFamily(r)
 }
 
 func pow(b int64, e int) int64 {
